@@ -57,7 +57,13 @@ impl Rewrite<MetaVariable> {
       .iter()
       .filter_map(|id| rewriters.get(id)) // NOTE: rewriter must be defined
       .collect();
-    let edits = find_and_make_edits(nodes, &rules, ctx);
+    let end = start + bytes.len();
+    // a rewriter's fix may expand beyond the captured text (expandStart/expandEnd):
+    // such an edit cannot be applied to the captured text and is dropped
+    let edits: Vec<_> = find_and_make_edits(nodes, &rules, ctx)
+      .into_iter()
+      .filter(|e| e.position >= start && e.position + e.deleted_length <= end)
+      .collect();
     let rewritten = if let Some(joiner) = &self.join_by {
       let mut ret = vec![];
       let mut edits = edits.into_iter();
